@@ -88,6 +88,41 @@ def fill_requests(rng):
     return out
 
 
+def cover_boundary(rng):
+    """requests whose extreme sample lands exactly on, one unit inside and one unit outside each edge of a
+       non-repeating source, for nearest and bilinear filters and a few scale factors: the cases that decide whether
+       SAMPLES_COVER_CLIP_* may be raised"""
+    out = []
+    fmt = F["a8r8g8b8"]
+    for sfilt in (3, 4):
+        half = FX1 // 2 if sfilt == 4 else 1          # bilinear reaches half a pixel further; nearest: floor (p - e)
+        for m00 in (FX1, FX1 // 2, 2 * FX1, 3 * FX1 // 2, -FX1):
+            for (sw, sh, dw, dh) in ((8, 3, 4, 2), (5, 4, 5, 3), (3, 2, 2, 1)):
+                x1, x2 = 0, dw
+                # centre of the last / first destination pixel, in 16.16, before translation
+                last = (m00 * (2 * x2 - 1)) // 2
+                first = (m00 * (2 * x1 + 1)) // 2
+                hi_edge, lo_edge = max(first, last), min(first, last)
+                for edge, want in ((hi_edge, sw * FX1), (lo_edge, 0)):
+                    for delta in (-FX1, -half - 1, -half, -half + 1, -1, 0, 1, 2, half - 1, half, half + 1, FX1):
+                        tx = want - edge + delta
+                        for axis in (0, 1):
+                            m = [FX1, 0, 0, 0, FX1, 0, 0, 0, FX1]
+                            if axis == 0:
+                                m[0], m[2] = m00, tx
+                            else:
+                                # same construction on the y axis
+                                lasty = (m00 * (2 * dh - 1)) // 2
+                                firsty = (m00 * 1) // 2
+                                e2 = max(firsty, lasty) if want else min(firsty, lasty)
+                                m[4], m[5] = m00, (sh * FX1 if want else 0) - e2 + delta
+                            for mode in (0, 1, 2):
+                                f = [mode, 1, fmt, sw, sh, 0, 0, sfilt] + m + [0, 1, 1, fmt, dw, dh, 0, 0, 0, 0, 0, 0, 0, dw, dh,
+                                                                              rng.randrange(1, 2 ** 31)]
+                                out.append("C %d %s" % (len(f), " ".join(str(int(v)) for v in f)))
+    return out
+
+
 def gen(rng, n):
     out = []
     fm = [F[k] for k in ("a8r8g8b8", "x8r8g8b8", "r5g6b5", "a8", "a1", "r8g8b8", "a4r4g4b4", "x2r10g10b10", "r3g3b2")]
@@ -188,6 +223,9 @@ def run(prop, args):
     exe, px = vf.build_driver("drv_bounds", "plain")
     chk.extra["build"] = px["hash"]
     reqs = gen(rng, 700 if quick else 6000)
+    cov = cover_boundary(rng)
+    reqs += cov if not quick else rng.sample(cov, 900)
+    chk.extra["cover_boundary_requests"] = len(cov)
     fills = fill_requests(rng)
     reqs += fills if not quick else rng.sample(fills, 700)
     chk.extra["fill_requests"] = len(fills)
